@@ -253,6 +253,11 @@ def load_dfu(optimize=False):
     return dfu
 
 
+class _Terminal(io.StringIO):
+    def isatty(self):
+        return True
+
+
 class Run:
     __slots__ = ('dev', 'stdout', 'code', 'crash', 'done_printed', 'stuck')
 
@@ -260,7 +265,7 @@ class Run:
 _TMP = None
 
 
-def run(firmware, dev, device_id='28e9:0189', via_fifo=False, optimize=False):
+def run(firmware, dev, device_id='28e9:0189', via_fifo=False, optimize=False, tty=False):
     """run the real cli_main against `dev`; via_fifo: the firmware path is a named pipe fed by a writer thread"""
     dfu = load_dfu(optimize)
     tmp = tempfile.mkdtemp(prefix='bbv-dfu-')          # one scratch directory per run, removed in the `finally` below
@@ -289,7 +294,7 @@ def run(firmware, dev, device_id='28e9:0189', via_fifo=False, optimize=False):
     dfu.time = clock
     old_argv = sys.argv
     sys.argv = ['bronzebeard-dfu', device_id, path]
-    buf = io.StringIO()
+    buf = _Terminal() if tty else io.StringIO()       # (a tool may draw its progress differently on a terminal: what it reports must not depend on it)
     r = Run()
     r.dev = dev
     r.code = 0
